@@ -467,6 +467,7 @@ def annotate(
 
     result = 0
     for path in paths:
+        created_dot_license = False
         try:
             binary = is_binary(str(path))
             if binary or is_uncommentable(path) or force_dot_license:
@@ -479,8 +480,10 @@ def annotate(
                         ).format(path=path, new_path=new_path)
                     )
                 path = Path(new_path)
-                path.touch()
-            result += add_header_to_file(
+                if not path.exists():
+                    path.touch()
+                    created_dot_license = True
+            file_result = add_header_to_file(
                 path=path,
                 reuse_info=reuse_info,
                 template=template,
@@ -503,6 +506,11 @@ def annotate(
                 )
             )
             sys.stdout.write("\n")
-            result += 1
+            file_result = 1
+        if file_result and created_dot_license:
+            # Do not leave an empty .license file behind if no header could be
+            # written into it.
+            path.unlink(missing_ok=True)
+        result += file_result
 
     sys.exit(min(result, 1))
